@@ -57,6 +57,12 @@ CLAIMED.update({
    technique='Coq proof (fuelled walk: soundness and completeness, pigeonhole for the fuel bound); bit-exact correspondence on histories', ref='6 C20'),
 })
 
+CLAIMED.update({
+ 'C17': dict(text='Machine-checked: every run appends one recorded snapshot per computed grid instant and nothing else; in every recorded snapshot of every reachable state (any schedule of runs, continuations, early stops, resets, new solvers) each per-element variable has exactly one sample per element; the finite model of which optional keys (tangential force, bending/contact stress, electric current, pwm) an element advertises and which ones an instant appends to agree for every element kind, optional-data subset, role and mate data except the single cell of finding D13 (proved to differ: _partial + _refuted).',
+   note='History layer: coq/Solver.v tied by the bit-exact solver correspondence. Key layer: coq/Keys.v (finite, no arithmetic) tied by comparing, for ~1400 element configurations per quick run, the keys after construction, the keys after a run and the keys holding one sample per instant, and whether the run raises. Sample kinds and "last sample equals the live attribute", snapshot and export are checked on the implementation by the search oracle after every operation of generated schedules (not modelled). Runs that raise mid-instant leave time one longer than the samples: outside the statement (it quantifies over runs that return), remarked in DESIGN.md.',
+   technique='Coq proof (history invariant + exhaustive case analysis of the finite key model); bit-exact correspondence; implementation oracle', ref='6 C17'),
+})
+
 PENDING = {}
 ALL = ['C%02d' % i for i in range(1, 21)]
 
